@@ -168,6 +168,36 @@ def outputs (eqv : α → α → Bool) : State α → List (Op α) → List (Opt
   | s, .set i v :: h => none :: outputs eqv (setValue wb eqv i v s) h
   | s, .eval a :: h => let r := evaluate wb f a s; some r.1 :: outputs eqv r.2 h
 
+/-! ### the other public forms: `set_value(<range or list of cells>, [v…])` and `evaluate([a…])` -/
+
+/-- `set_value(address, values)` with a list of values (no `set_as_range`): the addresses are resolved to cells and
+    written one by one, in order; the first cell that is not a value cell of the cell map aborts the call
+    (AssertionError), the cells before it stay written. -/
+def setMany (eqv : α → α → Bool) : List (Nat × α) → State α → State α
+  | [], s => s
+  | (i, v) :: r, s =>
+    if i < wb.n ∧ wb.kind i = .input ∧ s.built i = true then setMany eqv r (setValue wb eqv i v s) else s
+
+/-- `evaluate([a…])`: the addresses are evaluated one by one, in order -/
+def evalMany : List Nat → State α → List α × State α
+  | [], s => ([], s)
+  | a :: r, s =>
+    let e := evaluate wb f a s
+    let rest := evalMany r e.2
+    (e.1 :: rest.1, rest.2)
+
+inductive OpX (α : Type) where
+  | op (o : Op α)
+  | setMany (l : List (Nat × α))
+  | evalMany (l : List Nat)
+
+def stepX (eqv : α → α → Bool) (s : State α) : OpX α → State α
+  | .op o => step wb f eqv s o
+  | .setMany l => setMany wb eqv l s
+  | .evalMany l => (evalMany wb f l s).2
+
+def runX (eqv : α → α → Bool) (s : State α) (h : List (OpX α)) : State α := h.foldl (stepX wb f eqv) s
+
 /-! ### the three ways a model is obtained -/
 
 /-- in-memory workbook without stored results: nothing built, nothing cached -/
